@@ -2,17 +2,34 @@
 // (format: see lean/Cellml/Engine/Entity.lean)
 #pragma once
 #include "hx_common.h"
+#include <map>
 #include "libcellml/module/libcellml"
 
 namespace hxe {
 using namespace libcellml;
 
+// When sharing is on, import sources with the same (id, url) are one ImportSource *object* (as the parser
+// creates for the children of one <import> element); equality is by value, so this must not matter.
+inline bool &shareImportSources() { static bool v = false; return v; }
+inline std::map<std::pair<std::string, std::string>, ImportSourcePtr> &importSourcePool()
+{
+    static std::map<std::pair<std::string, std::string>, ImportSourcePtr> pool;
+    return pool;
+}
+
 inline void applyImp(const hx::Sexp &e, const ImportedEntityPtr &ent)
 {
     if (e.head() == "imp") {
-        auto src = ImportSource::create();
-        src->setId(e[1].text());
-        src->setUrl(e[2].text());
+        ImportSourcePtr src;
+        auto key = std::make_pair(e[1].text(), e[2].text());
+        if (shareImportSources() && importSourcePool().count(key) != 0) {
+            src = importSourcePool()[key];
+        } else {
+            src = ImportSource::create();
+            src->setId(e[1].text());
+            src->setUrl(e[2].text());
+            if (shareImportSources()) importSourcePool()[key] = src;
+        }
         ent->setImportSource(src);
         ent->setImportReference(e[3].text());
     } else {
